@@ -71,8 +71,14 @@ pub struct FuncMeta {
     pub call_lines: Vec<usize>,
     /// frame access lines (sw/lw through sp) with their offset
     pub frame_access: Vec<usize>,
-    /// free temporaries that are never used by this function
+    /// registers holding the named locals
     pub locals: Vec<u8>,
+    /// first line after the initialisation of the locals (always executed when the function runs)
+    pub body_start: usize,
+    /// first line of the final fold / epilogue
+    pub fold_start: usize,
+    /// line of the final `ret` (functions) or exit `ecall` (main)
+    pub last_line: usize,
 }
 
 #[derive(Clone, Debug, Default, Serialize, Deserialize)]
@@ -704,6 +710,7 @@ pub fn program(ch: &mut Choices, o: &CleanOpts) -> (Vec<Line>, CleanInfo) {
             fb.emit(ins("add", vec![r(acc), r(acc), r(A0 + arg as u8)]));
             arg += 1;
         }
+        fb.meta.body_start = fb.base + fb.out.len();
         for _ in 0..n_stmts {
             fb.stmt();
         }
@@ -715,7 +722,9 @@ pub fn program(ch: &mut Choices, o: &CleanOpts) -> (Vec<Line>, CleanInfo) {
                 }
             }
         }
+        fb.meta.fold_start = fb.base + fb.out.len();
         fb.finish(false);
+        fb.meta.last_line = fb.base + fb.out.len() - 1;
         let mut meta = fb.meta.clone();
         let out = std::mem::take(&mut fb.out);
         lines.extend(out);
